@@ -278,9 +278,11 @@ namespace sbepp
 #    define SBEPP_ASSERT(expr) assert(expr)
 #endif
 
+// `begin` can be located past `end` (e.g. a group or entry of a truncated
+// message), `end - begin` is negative then and must not be treated as a size
 #define SBEPP_SIZE_CHECK(begin, end, offset, size) \
     SBEPP_ASSERT(                                  \
-        (begin)                                    \
+        (begin) && ((begin) <= (end))              \
         && (((offset) + (size)) <= static_cast<std::size_t>((end) - (begin))))
 
 //! @brief The main `sbepp` namespace
